@@ -1,7 +1,7 @@
 (* Support for the world correspondence checks: canonical forms and comparisons. *)
 From stdpp Require Import gmap.
 From Coq Require Import ZArith NArith.
-From NSG Require Import Model.World Model.Load.
+From NSG Require Import Model.World Model.Load Model.Remap.
 
 Definition canon_map {K A} `{Countable K} `{Countable A} (m : gmap K (gset A)) : list (K * list A) :=
   map (fun kv => (fst kv, elements (snd kv))) (map_to_list m).
@@ -49,7 +49,8 @@ Inductive op :=
 | OStep (agent : nat) (a : gaction) (expected_view : view) (expected_world : option world)
 | OReset (expected_world : world)
 | OInit (agent : nat) (sp : start_pos) (oracle : list ip) (expected_view : view)
-| OSetView (agent : nat) (v : view).
+| OSetView (agent : nat) (v : view)
+| ORemap (m : mapping) (expected_world : world).      (* dynamic addresses: reset with re-labelling *)
 
 Fixpoint run (w : world) (views : list view) (ops : list op) : list bool :=
   match ops with
@@ -68,7 +69,14 @@ Fixpoint run (w : world) (views : list view) (ops : list op) : list bool :=
   | OSetView ag v' :: tl =>
       let views' := firstn ag views ++ v' :: skipn (S ag) views in
       true :: run w views' tl
+  | ORemap m ew :: tl =>
+      let w0 := reset w in
+      let w' := rekey_world m w0 in
+      (valid_mapping w0 m && world_eqb w' ew) :: run w' views tl
   end.
+
+Definition mk_mapping (ips : list (ip * ip)) (nets : list (net * net)) : mapping :=
+  {| m_ip := list_to_map ips; m_net := list_to_map nets |}.
 
 (* loader check: the model's load of the scenario equals the implementation's tables *)
 Definition check_load (sc : scenario) (expected : world) (start : list ip) : bool :=
